@@ -239,6 +239,59 @@ fn replay_known(ctx: &Ctx, k: &Known) -> Verdict {
     Ok(())
 }
 
+/// Hand-written files that exercise the special constructs of the analysis passes with several
+/// candidates each (two `IsZero` on one divisor, several range checks per comparison, several unused
+/// outputs, the same signal names in sibling branches, Circomlib names): repeated runs under every
+/// curve must display the same findings.
+fn pass_corpus(ctx: &Ctx, stats: &Stats) -> Vec<Failure> {
+    let mut files: Vec<String> = std::fs::read_dir("/verif/corpus/passes")
+        .map(|rd| rd.flatten().map(|e| e.path().display().to_string()).filter(|p| p.ends_with(".circom")).collect())
+        .unwrap_or_default();
+    files.sort();
+    let mut jobs: Vec<(String, &'static str)> = Vec::new();
+    for f in &files {
+        for c in ["BN254", "BLS12_381", "GOLDILOCKS"] {
+            jobs.push((f.clone(), c));
+        }
+    }
+    let repeats = ctx.tier.pick(11, 59);
+    let fails = run_items(ctx, &jobs, |_, (file, curve)| {
+        let out = scratch(ctx, "c17p");
+        let run = |n: usize| -> Result<Option<(BTreeMap<super::c03::Shown, usize>, Option<i32>)>, Bad> {
+            let mut o = RunOpts::files(&[file]).verbose().level("info").curve(curve);
+            o.sarif = Some(out.join(format!("o{n}.sarif")));
+            let b = run_bin(ctx, &o)?;
+            if crashed(&b.out) {
+                return Ok(None);
+            }
+            Ok(Some((b.shown.clone(), b.out.status)))
+        };
+        let Some(first) = run(0)? else { return Ok(()) };
+        stats.eval(1);
+        stats.class("pass_corpus_file_curve_pairs");
+        stats.nontrivial(fnv(format!("{file}/{curve}").as_bytes()));
+        for n in 1..=repeats {
+            let Some(again) = run(n)? else { continue };
+            stats.class("pass_corpus_repeat_runs");
+            if again != first {
+                let (a, b) = diff(&first.0, &again.0);
+                return Err(Bad::new(format!(
+                    "{file} under {curve}: run {} displays different findings: only in the first run {a:?}; only in the later run {b:?}",
+                    n + 1
+                ))
+                .sig("C17:nondeterministic-pass-corpus")
+                .rendered(file.clone()));
+            }
+        }
+        let _ = std::fs::remove_dir_all(&out);
+        Ok(())
+    });
+    fails
+        .into_iter()
+        .map(|(i, b)| Failure { check: "pass_corpus".into(), tape: format!("{} {}", jobs[i].0, jobs[i].1).into_bytes(), reason: b.reason, signature: b.signature, rendered: b.rendered })
+        .collect()
+}
+
 const EXTRA_BROKEN: &str = "\ntemplate ZzBroken(k) {\n    signal input zin;\n    var (za, zb) = (k, 2, 3);\n    signal output zout;\n    zout <-- zin;\n}\n";
 
 const EXTRA_DEFS: &str = "\ntemplate ZzExtra(k) {\n    signal input zin;\n    signal output zout;\n    var zv = k * 2;\n    zout <-- zin * zv;\n}\nfunction zzextra(x) {\n    var y = x + 1;\n    return x;\n}\n";
@@ -380,6 +433,14 @@ pub fn replay(ctx: &Ctx, check: &str, tape: &[u8]) -> Verdict {
     let rec = Rec::new(&stats, false);
     match check {
         "projects" => case(ctx, tape, &rec),
+        "pass_corpus" => {
+            // tape = "<file> <curve>": re-run the whole corpus check (cheap)
+            let stats = Stats::new();
+            match pass_corpus(ctx, &stats).into_iter().next() {
+                Some(f) => Err(Bad::new(f.reason).sig(f.signature)),
+                None => Ok(()),
+            }
+        }
         "duplicate_names" => duplicate_case(ctx, tape, &rec),
         _ => Err(Bad::new(format!("unknown check {check}"))),
     }
@@ -394,6 +455,8 @@ pub fn run(ctx: &Ctx) -> i32 {
         let r = replay_known(ctx, k);
         outcome.known_replay(k, r);
     }
+    let fails = pass_corpus(ctx, &stats);
+    outcome.absorb(&known, fails);
     let fails = run_tapes_opts(ctx, "projects", ctx.tier.pick(1_500, 15_000), 3000, 60, &stats, |tape, rec| case(ctx, tape, rec));
     outcome.absorb(&known, fails);
     let fails = run_tapes_opts(ctx, "duplicate_names", ctx.tier.pick(160, 3_000), 3000, 40, &stats, |tape, rec| duplicate_case(ctx, tape, rec));
